@@ -9,12 +9,13 @@ CLAIMED = {
         text="ModelLang.tla specifies the language generatively: structured models are the meaning, Expand gives the documented meaning of every "
              "pseudofunction, Render produces the source for each combination of 12 syntactic choices (keyword spellings/shortcuts, brackets, "
              "= / :=, ^ / **, separators, comments and continuations, !log-variables list / !all-but, pseudofunction spellings and default shifts, "
-             "!for anonymous/named/contextual, !if / !else, $substitutions$, !! variants, descriptions); TLC checks that expansion is total and that "
+             "!for anonymous/named/contextual, !if / !else incl. an !if without !else before a sibling with one, $substitutions$, !! variants, descriptions incl. one "
+             "supplied through a Jinja expression from the context, declaration order of the parameters); TLC checks that expansion is total and that "
              "the base models are never confused. Every rendered text is parsed by Simultaneous.from_string and compared with the meaning (names by "
              "kind and order, descriptions, log status, every dynamic and steady equation on random data against the expanded trees); all "
              "renderings of one model must yield the same model.",
         note="Trusted: TLC, the harness' tree evaluator. Bounds: 4 structured models, 124k renderings (quick: every 40th choice vector, all "
-             "alternatives covered). Macro arguments with more than one level of parentheses, Jinja, autoswaps, pre/post-processors not covered. One known finding (a pseudofunction nested in another is not expanded).",
+             "alternatives covered). Macro arguments with more than one level of parentheses, Jinja beyond one {{ }} expression, autoswaps, pre/post-processors not covered. One known finding (a pseudofunction nested in another is not expanded).",
         design="5/C04", technique="TLA+ generative spec (ModelLang) checked by TLC; every TLC-rendered source replayed into irispie's parser"),
     "C02": dict(
         text="Aldi.tla defines derivative trees by the textbook rules (incl. two user context functions known by their definition) and, independently, "
@@ -70,9 +71,10 @@ CLAIMED = {
              "structural equation has zero residual with leads read from the model-consistent continuation (the property itself), that the steady "
              "state - a fixed point, or a path for the linearised balanced-growth model - is reproduced by the reduced form, and that level = steady + deviation; root certificates are checked against the characteristic polynomials. "
              "The model source emitted by the spec is parsed, solved and simulated by irispie (a second time with force_split_frames=True); whole paths and root counts are compared; two library "
-             "models of the same shape are also run as the two parameter variants of ONE parametric linear model (variant k must follow its own spec path).",
+             "models of the same shape are also run as the two parameter variants of ONE parametric linear model (variant k must follow its own spec path); a fifth of the "
+             "scenarios is repeated on the model declared deterministic, a third with the measurement equations rendered as a simultaneous block.",
         note="Trusted: TLC, scipy QZ/numpy primitives. Bounds: the library (rational roots, <= 2 states, leads and lags up to 2, log-variables, measurement "
-             "with lagged states, a unit root with drift), 4 periods, shocks in {-1,1,2} (thorough: 5 initial windows x 8 x 8 shock profiles). Complex roots, larger models and arbitrary parameters are out of bound.",
+             "with lagged states, a unit root with drift, one complex-conjugate unstable pair), 4 periods, shocks in {-1,1,2} (thorough: 5 initial windows x 8 x 8 shock profiles). Larger models and arbitrary parameters are out of bound.",
         design="5/C01", technique="TLA+ spec (ModelLib, LinearRE) model-checked by TLC in exact rational arithmetic; every TLC-generated behaviour replayed into irispie"),
     "C05": dict(
         text="SteadyMC.tla holds a library of models with their exact steady solutions (levels and changes) as certificates that are not trusted: TLC "
@@ -82,10 +84,11 @@ CLAIMED = {
              "scipy_root solver, further starting values where the solution is unique); "
              "levels, changes and endogenized parameters are compared with the certificate and every steady equation is re-evaluated on the stored "
              "path at several dates with the harness' own tree evaluator.",
-        note="Trusted: TLC, the harness' tree evaluator. Bounds: 10 library instances (flat nonlinear two-block; balanced growth with log-variables "
+        note="Trusted: TLC, the harness' tree evaluator. Bounds: 11 library instances (flat nonlinear two-block; balanced growth with log-variables "
              "and fix_level; linear growth; linear forward-looking; log-linear with lag/lead 2 under linear=True; exogenize-variable/endogenize-parameter "
              "plan; flat mode with an exogenous variable carrying a stale change; linear growth with a unit root, drift and measurement equations; a simultaneous core followed by a recursive tail two levels deep; "
-             "a cubic whose sum of squares has a local minimum away from the only real root), flat flag "
+             "a cubic whose sum of squares has a local minimum away from the only real root; a trend whose change only the plan pins down (SteadyPlan.fix: level and change)), "
+             "one instance also as two variants with different growth rates, flat flag "
              "given at creation or at solve time. The statement is conditional on solve_steady completing; Newton convergence is not decided. One known finding (linear models ignore "
              "steady plans).",
         design="5/C05", technique="TLA+ spec (SteadyMC) model-checked by TLC in exact rational arithmetic; every TLC-verified instance replayed into irispie's solve_steady"),
@@ -98,7 +101,8 @@ CLAIMED = {
              "spec path (= first-order path for the linear models), the reported frames with the spec's partition, each frame's databox with the slices "
              "written back, measurement variables with their inputs, and every equation is re-evaluated frame by frame with the shocks visible in the "
              "frame and the terminal condition in force. Two library models are also run as the two variants of ONE parametric model on a two-variant databox whose "
-             "variants have their surprises in different periods (own frames per variant) and which carries stale parameter entries that must not be used.",
+             "variants have their surprises in different periods (own frames per variant) and which carries stale parameter entries that must not be used; the short method "
+             "names are configurations of their own, and surprises scaled by 1e-9 must still start their frames.",
         note="Trusted: TLC, numpy, the neqs Newton solver (success is a precondition; step_tolerance disabled because neqs stops exactly solved systems with "
              "'cannot make further progress'). Bounds: 6 linear/log-linear models x 144 level scenarios of 4 periods, nonlinear T1/T2/T3 of 3 periods; "
              "no deviation mode (stacked time has none); plans under stacked_time are exercised in C07.",
@@ -108,7 +112,8 @@ CLAIMED = {
              "input 0 or 1/2), solves for the instruments through the exact impact matrix and TLC checks that they are the original shocks and that "
              "the planned path satisfies the structural equations; every non-singular scenario is run through SimulationPlan + simulate(plan=...) "
              "under method first_order (also frame by frame, force_split_frames=True) and, in level mode, stacked_time, and compared (targets hit, shocks recovered, whole path, "
-             "other shocks unchanged); two scenarios with the same plan are also run as the two variants of one input databox.",
+             "other shocks unchanged); two scenarios with the same plan are also run as the two variants of one input databox, a sixth of the scenarios on the model declared "
+             "deterministic and a sixth with a plan that had a further pair registered and taken out again (status=False) while the databox keeps the stale target.",
         note="Trusted: TLC, numpy primitives, the neqs solver for stacked_time. Bounds: library models L1, L2, L3, L6 (log-variables), L9; <= 2 (target, instrument) pairs (also with the first shock as the later instrument). Anticipated plans "
              "are combined with anticipated base shocks only (mixing them with later surprises is not specified). Two known findings (stacked_time ignores "
              "unanticipated targets dated differently from their instrument; frame-by-frame first_order fails when a frame break separates an unanticipated instrument from its target).",
@@ -137,7 +142,7 @@ CLAIMED = {
         text="ModelObjects.tla keeps, per handle, the sequence of variant records [parameters, steady-for, solved-for] and the tolerance setting; "
              "assign/steady/solve/alter_num_variants/override_tolerance/copy/pickle/dill/save-load are actions; independence (an action changes only its own handle) and duplicate "
              "equivalence are action properties checked by TLC on every generated step. Simulated behaviours are replayed on a Simultaneous "
-             "growth model with log-variables, on a Sequential model (with reorder_equations as a further action) and on a RedVAR (estimate as the solve step); after every step every variant of every handle is compared with a "
+             "growth model with log-variables and a !steady-autovalues parameter, on a Sequential model (with reorder_equations as a further action) and on a RedVAR (estimate as the solve step); after every step every variant of every handle is compared with a "
              "fresh single-variant reference resolved from the record (steady levels/changes, solution matrices, simulations).",
         note="Trusted: TLC (simulation mode: sampled behaviours). Bounds: 3 handles, <= 3 variants, 2 parameters x 3 values, depth 14. RedVAR.simulate is "
              "not part of the machine. Two known findings (portable round trip; standard pickle of Sequential).",
